@@ -331,7 +331,8 @@ let gen_history ?(cfgstr : string option) (idx : int) (prof : profile) (oc : out
          let alive () = !s.gw_ending = None && not !s.gw_ended in
          emit_or_skip (ev_mq (MqPublish (false, nn q, false, nm, nn tid, payload ())));
          if rnd 4 = 0 then adv_safe (1 + rnd 30);
-         if alive () then emit_or_skip (ev_sn (Publish (false, nn 1, false, nn 0, nn tid, nn cm, payload ())));
+         let cq = if rnd 3 = 0 then 2 else 1 in      (* a client QoS 2 PUBLISH keeps no state in the gateway: no interference *)
+         if alive () then emit_or_skip (ev_sn (Publish (false, nn cq, false, nn 0, nn tid, nn cm, payload ())));
          if alive () then
            (match rnd 4 with
             | 0 -> adv_safe (rdelay + 3)                                   (* the client's exchange times out / is retried *)
